@@ -291,6 +291,51 @@ impl Property for C06 {
                 ctx.stats.probe("crafted_share_at_x_zero_in_inbox");
             }
         }
+        // genuine points at chosen x (computed from the inferred polynomials with big integers): values
+        // 2^128 apart, limb boundaries, p-1. A holder may hand in any genuine point.
+        let mut crafted_pair: Option<(usize, usize)> = None;
+        if k >= 1 && t >= 2 && ctx.ch.chance(1, 3) {
+            let two128: BigUint = BigUint::from(1u32) << 128usize;
+            let small = BigUint::from(1u32 + ctx.ch.draw(12000) as u32); // x and x + 2^128 are both < p
+            let xs: Vec<BigUint> = vec![small.clone(), &small + &two128, BigUint::from(1u32) << 64usize, two128.clone(), &p - 1u32];
+            let mut idx: Vec<usize> = Vec::new();
+            for x in xs {
+                let mut b = shamir_big::to_le24(&x).to_vec();
+                for j in 0..k {
+                    b.extend_from_slice(&shamir_big::to_le24(&shamir_big::eval(&polys[j], &x, &p)));
+                }
+                if let Ok(s) = Share::try_from(&b[..]) {
+                    inbox.push((s, false));
+                    idx.push(inbox.len() - 1);
+                }
+            }
+            if idx.len() >= 2 {
+                crafted_pair = Some((idx[0], idx[1]));
+            }
+            ctx.stats.probe("crafted_genuine_points_at_boundary_x");
+        }
+        // a selection that needs BOTH x and x + 2^128 to reach the threshold
+        if let Some((a, b)) = crafted_pair {
+            let mut sel: Vec<Share> = vec![inbox[a].0.clone(), inbox[b].0.clone()];
+            let mut seen: Vec<BigUint> = sel.iter().map(|s| fp_to_big(&s.x)).collect();
+            for (s, trunc) in inbox.iter() {
+                if sel.len() >= t {
+                    break;
+                }
+                let x = fp_to_big(&s.x);
+                if !*trunc && s.y.len() == k && !seen.contains(&x) {
+                    seen.push(x);
+                    sel.push(s.clone());
+                }
+            }
+            if sel.len() == t {
+                match sharks.recover(&sel) {
+                    Ok(bytes) if bytes == secret => ctx.stats.probe("recovered_from_points_2_128_apart"),
+                    Ok(_) => return Err(Violation::new("c06.recover", "wrong_secret", "recovery from t genuine points including x and x + 2^128 returned another secret")),
+                    Err(e) => return Err(Violation::new("c06.recover", "recover_err", format!("t = {} genuine shares with distinct x (two of them exactly 2^128 apart) were refused: {}", t, e))),
+                }
+            }
+        }
         // ---- combiner: drawn selections
         let rounds = if ctx.thorough { 5 } else { 3 };
         let mut did_recover = false;
